@@ -556,3 +556,15 @@ def r12(rr, repo):
             rr.ob('the socket send copies its payload', cp.value is not False and cp.value != 0, za.mod, c, witness=U(c)[:100], key=f'send-copies|{qualname(enclosing_function(c))}')
         else:
             rr.unresolved('the copy mode of a socket send is not a constant', za.mod, c, witness=U(c)[:100], key=f'send-copies|{qualname(enclosing_function(c))}')
+
+
+@rule('C02.R13', "a set is made of what ONE publisher sent under its id: when a source says CLOSE, the half received set it leaves behind is dropped - for a synchronized source as well, whose consumer's requests "
+                 "fast-forward the restarted publisher to exactly the id of that half set; if the new publisher's set lacks a topic the old one had delivered, the two would come out as one set")
+def r13(rr, repo):
+    from .c05 import close_drop_coverage
+    za = anchors(repo)
+    closes = [n for n in ast.walk(za.R_once) if isinstance(n, ast.If) and 'MSG_ID_CLOSE' in U(n.test)]
+    rr.floor('CLOSE handlers in recv_once', len(closes), 1, za.mod, za.R_once)
+    for h in closes:
+        eph, sync, n = close_drop_coverage(h)
+        rr.ob('when a synchronized source closes, a half received set of it is dropped', sync, za.mod, h, witness=f'new_recv() calls in the CLOSE handler: {n}; synchronized sources covered: {sync}', key='sync-close-drops-partial')
